@@ -204,6 +204,8 @@ fn run_case<'a>(ctx: &'a Ctx, case: u64, acc: &'a mut Acc) -> CaseFut<'a> {
             ("never-member", mk(vec![(other.vkey.clone(), true), me.clone()], vec![me.clone()], vec![])),
             ("admin-only", mk(vec![me.clone()], vec![me.clone(), (req.vkey.clone(), true)], vec![])),
             ("user-admin-only", mk(vec![me.clone()], vec![me.clone()], vec![(req.vkey.clone(), true)])),
+            ("former-admin", mk(vec![me.clone()], vec![me.clone(), (req.vkey.clone(), true)], vec![])),
+            ("former-user-admin", mk(vec![me.clone()], vec![me.clone()], vec![(req.vkey.clone(), true)])),
         ];
         let mut rooms: Vec<(&str, RoomHandle)> = Vec::new();
         for (name, spec) in specs {
@@ -244,6 +246,13 @@ fn run_case<'a>(ctx: &'a Ctx, case: u64, acc: &'a mut Acc) -> CaseFut<'a> {
         let mut former = rooms[1].1.clone();
         s.edit_room(&mut former, &RoomEdit::User(0, req.vkey.clone(), false)).await.unwrap();
         rooms[1].1 = former;
+        // and loses its admin / user admin role in two other rooms
+        let mut h = rooms[5].1.clone();
+        s.edit_room(&mut h, &RoomEdit::Admin(req.vkey.clone(), false)).await.unwrap();
+        rooms[5].1 = h;
+        let mut h = rooms[6].1.clone();
+        s.edit_room(&mut h, &RoomEdit::UserAdmin(0, req.vkey.clone(), false)).await.unwrap();
+        rooms[6].1 = h;
         t += DAY;
         clock_set(t);
         s.recompute().await;
